@@ -165,6 +165,35 @@ func (s *regSpy) stopped() bool {
 	return s.reg == nil || s.reg.stopDone
 }
 
+// monCluster is the cluster handed to ONE watcher of mode R: the real Calcium,
+// with NodeStatusStream instrumented.  selfmon.monitor opens the stream first, so
+// a call means "a monitor of this watcher started with this context"; the
+// watcher believes it is the active one for as long as such a context is live.
+type monCluster struct {
+	cluster.Cluster
+	mu   sync.Mutex
+	ctxs []context.Context
+}
+
+func (m *monCluster) NodeStatusStream(ctx context.Context) chan *types.NodeStatus {
+	m.mu.Lock()
+	m.ctxs = append(m.ctxs, ctx)
+	m.mu.Unlock()
+	return m.Cluster.NodeStatusStream(ctx)
+}
+
+// live: some monitor of this watcher was started with a context that is not done
+func (m *monCluster) live() bool {
+	m.mu.Lock()
+	defer m.mu.Unlock()
+	for _, c := range m.ctxs {
+		if c.Err() == nil {
+			return true
+		}
+	}
+	return false
+}
+
 // ---- one schedule ----
 
 // crun is one start of a registrant: one call of selfmon.run / RegisterService.
@@ -184,6 +213,9 @@ const (
 	cPending
 	cBeliever
 	cStuck
+	// mode R: notified by the store (its expiry channel closed) but its monitor is
+	// still running: it believes, it will not register again; not in the model
+	cZombie
 )
 
 type client struct {
@@ -192,6 +224,7 @@ type client struct {
 	doomed bool
 	spy    *regSpy
 	cal    *calcium.Calcium // mode S
+	mon    *monCluster      // mode R
 	cur    *crun
 }
 
@@ -292,6 +325,7 @@ func runClientSchedule(t *testing.T, joins *sync.WaitGroup, sp spec, b backend) 
 			c.VerifSetStore(cs[i].spy)
 		} else {
 			cs[i].spy = &regSpy{Store: b.store()}
+			cs[i].mon = &monCluster{Cluster: monitorCluster}
 		}
 	}
 	if !waitFor(watchdog, func() bool { ex, _, _, _ := b.look(); return !ex }) {
@@ -315,7 +349,7 @@ func runClientSchedule(t *testing.T, joins *sync.WaitGroup, sp spec, b backend) 
 			}()
 			if sp.mode == "R" {
 				cfg := types.Config{HAKeepaliveInterval: b.hb(), ConnectionTimeout: restartPause, GlobalTimeout: 10 * time.Second}
-				selfmon.VerifNew(int64(i), cfg, monitorCluster, c.spy).VerifRun(ctx)
+				selfmon.VerifNew(int64(i), cfg, c.mon, c.spy).VerifRun(ctx)
 				return
 			}
 			un, _ := c.cal.RegisterService(ctx)
@@ -342,7 +376,16 @@ func runClientSchedule(t *testing.T, joins *sync.WaitGroup, sp spec, b backend) 
 		return -1
 	}
 	keyPresent := func() bool { ex, _, _, _ := b.look(); return ex }
+	// holding at store level: a live registration (its ticker refreshes the key)
 	believes := func(c *client) bool { return c.st == cBeliever && c.spy.holds() }
+	// the reported flag "does not believe".  R: observed from the watcher itself
+	// (no monitor running); S: from the registrations of its Calcium
+	notBelieving := func(c *client) bool {
+		if sp.mode == "R" {
+			return !c.mon.live()
+		}
+		return !believes(c)
+	}
 	flags := func() []bool {
 		fl := make([]bool, sp.n)
 		for i, c := range cs {
@@ -382,8 +425,12 @@ func runClientSchedule(t *testing.T, joins *sync.WaitGroup, sp spec, b backend) 
 				note("no-attempt-in-start")
 				ob.Res, c.st = "ResOther", cPending
 			case c.spy.at(base).err == nil:
-				ob.Res, c.st, c.flag = "ResOk", cBeliever, false
+				ob.Res, c.st = "ResOk", cBeliever
 				note(b.registered(o.I))
+				if sp.mode == "R" && !waitFor(watchdog, func() bool { return c.mon.live() }) {
+					note("registered-but-monitor-not-started")
+				}
+				c.flag = notBelieving(c)
 				if sp.mode == "S" && !waitFor(watchdog, func() bool { return isClosed(run.done) }) {
 					note("registered-but-RegisterService-blocked")
 					ob.Res = "ResOther"
@@ -391,6 +438,7 @@ func runClientSchedule(t *testing.T, joins *sync.WaitGroup, sp spec, b backend) 
 				if !c.spy.holds() {
 					note("registered-but-not-holding")
 				}
+				c.flag = notBelieving(c)
 			case errors.Is(c.spy.at(base).err, types.ErrKeyExists):
 				ob.Res, c.st, c.flag = "ResExists", cPending, true
 			default:
@@ -448,13 +496,23 @@ func runClientSchedule(t *testing.T, joins *sync.WaitGroup, sp spec, b backend) 
 				if sp.mode == "S" && !waitFor(watchdog, func() bool { return isClosed(c.cur.done) }) {
 					note("registered-but-RegisterService-blocked")
 				}
+				if sp.mode == "R" && !waitFor(watchdog, func() bool { return c.mon.live() }) {
+					note("registered-but-monitor-not-started")
+				}
 				note(b.registered(p0))
 			}
 			if notified >= 0 {
 				c := cs[notified]
 				c.doomed = false
 				reRegistered := sp.mode == "S" && c.spy.successes() > s0[notified]
+				// R: the store-level notification is validated (the channel is closed);
+				// the watcher's part is to stop monitoring: if its monitor is still
+				// running reRegisterLimit later, that is what is observed and emitted
+				stillMonitoring := sp.mode == "R" && !waitFor(reRegisterLimit, func() bool { return !c.mon.live() })
 				switch {
+				case stillMonitoring:
+					note("notified-but-still-monitoring")
+					c.st = cZombie // believes; no retry is expected from it
 				case reRegistered:
 					registered = true
 					note(b.registered(notified))
@@ -488,7 +546,7 @@ func runClientSchedule(t *testing.T, joins *sync.WaitGroup, sp spec, b backend) 
 				})
 			}
 			for _, c := range cs {
-				c.flag = !believes(c)
+				c.flag = notBelieving(c)
 			}
 		case kStop:
 			c := cs[o.I]
@@ -507,8 +565,9 @@ func runClientSchedule(t *testing.T, joins *sync.WaitGroup, sp spec, b backend) 
 				if !waitFor(watchdog, func() bool { return !c.spy.busy() }) {
 					note("attempt-in-flight-after-stop")
 				}
-				c.st, c.flag = cIdle, !c.spy.holds()
-			case cBeliever:
+				c.st = cIdle
+				c.flag = notBelieving(c)
+			case cBeliever, cZombie:
 				align()
 				if sp.mode == "S" {
 					if un := c.cur.unregisterFn(); un != nil {
@@ -526,7 +585,10 @@ func runClientSchedule(t *testing.T, joins *sync.WaitGroup, sp spec, b backend) 
 					c.st = cIdle
 				}
 				c.doomed = false
-				c.flag = !c.spy.holds()
+				if sp.mode == "R" {
+					waitFor(reRegisterLimit, func() bool { return !c.mon.live() })
+				}
+				c.flag = notBelieving(c)
 			}
 		}
 		var n string
@@ -557,7 +619,7 @@ func runClientSchedule(t *testing.T, joins *sync.WaitGroup, sp spec, b backend) 
 		// a lapsed believer is about to become a contender: no second one
 		return !(doomedIdx() >= 0 && keyPresent())
 	}
-	legalStop := func(i int) bool { return cs[i].st == cPending || cs[i].st == cBeliever }
+	legalStop := func(i int) bool { return cs[i].st == cPending || cs[i].st == cBeliever || cs[i].st == cZombie }
 	legalLapse := func() bool { return doomedIdx() < 0 }
 	if sp.fixed != nil {
 		for _, o := range sp.fixed {
@@ -620,7 +682,7 @@ func runClientSchedule(t *testing.T, joins *sync.WaitGroup, sp spec, b backend) 
 		exec(mop{kStop, j})
 	}
 	for i, c := range cs {
-		if c.st == cBeliever && out.invalid == "" {
+		if (c.st == cBeliever || c.st == cZombie) && out.invalid == "" {
 			exec(mop{kStop, i})
 		}
 	}
@@ -677,11 +739,11 @@ func lapseWhileRegisteredC(mode string, ops []mop) bool {
 	return flag
 }
 
-func clientCorpus() [][]mop {
+func clientCorpus(mode string) [][]mop {
 	R := func(i int) mop { return mop{kReg, i} }
 	S := func(i int) mop { return mop{kStop, i} }
 	L, T := mop{kLapse, 0}, mop{kTick, 0}
-	return [][]mop{
+	corpus := [][]mop{
 		{R(0), T, S(0)},
 		// etcd, R: 1 takes over at the tick after the lapse and 0 goes back to
 		// registering; S: 0 registers again at once, 1 keeps waiting.
@@ -690,4 +752,11 @@ func clientCorpus() [][]mop {
 		// a lapse with nobody waiting: the registrant comes back by itself
 		{R(0), L, T, T, S(0)},
 	}
+	if mode == "R" {
+		// the old watcher's registration lapses, another watcher becomes active, then
+		// the old one is notified: it must stop monitoring and go back to registering
+		// (it gets the key again after the other one stopped)
+		corpus = append(corpus, []mop{R(0), T, L, R(1), T, T, S(1), T, S(0)})
+	}
+	return corpus
 }
